@@ -57,8 +57,9 @@ def prepare():
     h = os.path.join(VERIF, "harness")
     inject(os.path.join(h, "sarama"), REPO, lambda f: "zz_vf_" + f)
     if os.environ.get("VF_WIP"):
-        # files under development live in harness/wip so that a half-written file never breaks other builds
-        inject(os.path.join(h, "wip"), REPO, lambda f: "zz_vfwip_" + f)
+        # files under development live in harness/wip so that a half-written file never breaks other builds;
+        # a wip file with the same name as a harness/sarama file replaces it in this build
+        inject(os.path.join(h, "wip"), REPO, lambda f: "zz_vf_" + f)
     inject(os.path.join(h, "mocks"), os.path.join(REPO, "mocks"), lambda f: "zz_vf_" + f)
     inject(os.path.join(h, "vfcore"), os.path.join(REPO, "internal", "vfcore"), lambda f: f)
     inject(os.path.join(h, "vfref"), os.path.join(REPO, "internal", "vfref"), lambda f: f)
